@@ -424,7 +424,7 @@ func TestC13(t *testing.T) {
 	r.Require("closed_at_chunk_boundary", q(30, 600))
 	r.Require("keyless_key_stored_again", q(300, 6000))
 	for _, c := range []string{"pub", "priv", "loop"} {
-		r.Require("remote_class_"+c, q(1200, 24000))
+		r.Require("remote_class_"+c, q(800, 16000))
 	}
 	if verifhookPresent() {
 		r.Require("race_consume_locks_after_last_conn_gone", q(200, 4000))
